@@ -121,16 +121,14 @@ def run_solver_case(lines):
         else:
             vals.append(f2h(glob[gi][2])); gi += 1
     mlines, expect = [], []
+    li = 0
     for l, o in zip(lines, io):
+        if l == "sv.solve" and im.refine:
+            nfev, fx, x = im.local_results[li]; li += 1
+            mlines.append(f"sv.local {nfev} {f2h(fx)} " + fs2h(x)); expect.append("ok")
         mlines.append(l); expect.append(o)
         if l.startswith("sv.new"):
             mlines.append("sv.oracle " + " ".join(vals)); expect.append("ok")
-            if im.refine:
-                sol = im.sv.GetResults()
-                b = sol.bestTrials[0]
-                mlines.append(f"sv.local {sol.numberOfLocalTrials} {f2h(b.functionValues[0].value)} "
-                              + fs2h(b.point.floatVariables))
-                expect.append("ok")
     return mlines, expect, im
 
 
